@@ -158,12 +158,14 @@ def lookahead(ctx: Ctx, py: PyProgram) -> None:
                     tgt = [unparse(x.targets[0]) for x in ast.walk(st) if isinstance(x, ast.Assign)]
                     pulls.append((t, tgt[0] if tgt else "?"))
     ctx.need(len(pulls) == 2, f"fusion(): expected 2 guarded next() pulls, found {len(pulls)}")
+    pulls.sort(key=lambda p_: p_[0].lineno)     # the first pull in program order fetches the instruction itself, the second looks ahead
+    first_try = pulls[0][0]
     n = 0
     for t, tgt in pulls:
         handled = set()
         for h in t.handlers:
             handled |= _handler_classes(h)
-        first = "instr1" in tgt
+        first = t is first_try
         n += 1
         if first:
             continue  # a failure of the first instruction is the caller's verdict for that instruction
@@ -174,7 +176,7 @@ def lookahead(ctx: Ctx, py: PyProgram) -> None:
                           "a valid first instruction is rejected (hooks) or the emulator fetch raises, depending on the bytes after it (e.g. 00 56 04 00)",
                           f"{isa.OPCODES_PY}:{t.lineno}", raised=sorted(raises), handled=sorted(handled))
     ctx.instance("C01.3/lookahead-isolation", "guarded next() pulls in fusion() vs the raise set of iter_decode", n, 2)
-    ctx.sample({"iter_decode_raises": sorted(raises), "fusion_lookahead_handles": sorted(set().union(*[_handler_classes(h) for t, tgt in pulls if 'instr1' not in tgt for h in t.handlers]))})
+    ctx.sample({"iter_decode_raises": sorted(raises), "fusion_lookahead_handles": sorted(set().union(*[_handler_classes(h) for t, tgt in pulls if t is not first_try for h in t.handlers]))})
 
 
 def consumers(ctx: Ctx, py: PyProgram) -> None:
@@ -185,7 +187,10 @@ def consumers(ctx: Ctx, py: PyProgram) -> None:
         fn = py.func(isa.ARCH_PY, q)
         calls = [c for c in ast.walk(fn) if isinstance(c, ast.Call) and unparse(c.func) == "decode"]
         n += 1
-        if len(calls) != 1 or unparse(calls[0]) != "decode(data, addr, OPCODES)":
+        def _args_ok(c: ast.Call) -> bool:
+            pos = [unparse(a) for a in c.args] + [unparse(k.value) for k in c.keywords]
+            return pos == ["data", "addr", "OPCODES"]
+        if len(calls) != 1 or not _args_ok(calls[0]):
             ctx.violation("C01.4/same-decoder", key_of(isa.ARCH_PY, q, "decode call"), f"{q} does not call decode(data, addr, OPCODES)", f"{isa.ARCH_PY}:{fn.lineno}")
         tries = [t for t in ast.walk(fn) if isinstance(t, ast.Try) and any(c in list(ast.walk(t)) for c in calls)]
         swallow = set()
@@ -204,7 +209,7 @@ def consumers(ctx: Ctx, py: PyProgram) -> None:
     calls = [c for c in ast.walk(fn) if isinstance(c, ast.Call) and unparse(c.func) == "decode"]
     ctx.need(len(calls) == 1, "Emulator.decode_instruction: decode() call not found")
     n += 1
-    if [unparse(a) for a in calls[0].args[1:]] != ["address", "OPCODES"]:
+    if ([unparse(a) for a in calls[0].args] + [unparse(k.value) for k in calls[0].keywords])[1:] != ["address", "OPCODES"]:
         ctx.violation("C01.4/same-decoder", key_of(isa.EMU_PY, "Emulator.decode_instruction", "decode call"), "the emulator does not decode with the shared OPCODES table", f"{isa.EMU_PY}:{fn.lineno}")
     handled = set()
     for t in ast.walk(fn):
@@ -219,7 +224,12 @@ def consumers(ctx: Ctx, py: PyProgram) -> None:
                       "(e.g. bytes 56 04 00: hooks return None, Emulator.decode_instruction raises AssertionError)", f"{isa.EMU_PY}:{fn.lineno}")
     # fallback when decode returns None
     n += 1
-    if not any(isinstance(i, ast.If) and unparse(i.test) == "instr is None" and any("_FallbackInstruction" in unparse(s) for s in i.body) for i in ast.walk(fn)):
+    holders = {t.id for a in ast.walk(fn) if isinstance(a, ast.Assign) and any(c is calls[0] for c in ast.walk(a.value)) for t in a.targets if isinstance(t, ast.Name)}
+
+    def _none_test(t: ast.expr) -> bool:
+        return (isinstance(t, ast.Compare) and len(t.ops) == 1 and isinstance(t.ops[0], ast.Is) and isinstance(t.left, ast.Name) and t.left.id in holders
+                and isinstance(t.comparators[0], ast.Constant) and t.comparators[0].value is None) or (isinstance(t, ast.UnaryOp) and isinstance(t.op, ast.Not) and isinstance(t.operand, ast.Name) and t.operand.id in holders)
+    if not any(isinstance(i, ast.If) and _none_test(i.test) and any("_FallbackInstruction" in unparse(s) for s in i.body) for i in ast.walk(fn)):
         ctx.violation("C01.4/fallback", key_of(isa.EMU_PY, "Emulator.decode_instruction", "fallback"), "no placeholder instruction when decode returns None", f"{isa.EMU_PY}:{fn.lineno}")
     ctx.instance("C01.4/consumers", "3 hooks + emulator fetch: same decoder call, same handled exception set, fallback present", n, 7)
     ctx.sample({"hook_handlers": {k: sorted(v) for k, v in sets.items()}, "emulator_handlers": sorted(handled)})
